@@ -1,5 +1,5 @@
 (* C15 property theorems.  Only statements closed by [exact]; each followed by Print Assumptions. *)
-From Miller Require Import Base.Bytes C15.Model C15.Proofs.
+From Miller Require Import Base.Bytes C15.Model C15.Proofs C15.Utf8Proofs.
 Open Scope char_scope.
 Open Scope Z_scope.
 
@@ -29,12 +29,16 @@ Theorem C15_substr0_is_substr1_shifted :
 Proof. exact slice_access_zero_up. Qed.
 Print Assumptions C15_substr0_is_substr1_shifted.
 
-(* strlen counts characters; PARTIAL: additivity is proved for an ASCII left part only (general well-formed UTF-8 left
-   parts are covered by the correspondence check, not by a theorem) *)
-Theorem C15_strlen_app_partial :
-  forall a b, forallb (fun c => (code c <? 128)%N) a = true -> strlen (a ++ b) = strlen a + strlen b.
-Proof. exact strlen_ascii_app. Qed.
-Print Assumptions C15_strlen_app_partial.
+(* strlen counts characters, not bytes: additive over any well-formed UTF-8 left part (whatever follows, valid or not) *)
+Theorem C15_strlen_app :
+  forall a b, valid_utf8 a = true -> strlen (a ++ b) = strlen a + strlen b.
+Proof. exact strlen_app_valid. Qed.
+Print Assumptions C15_strlen_app.
+
+Theorem C15_runes_app :
+  forall a b, valid_utf8 a = true -> runes (a ++ b) = runes a ++ runes b.
+Proof. exact runes_app_valid. Qed.
+Print Assumptions C15_runes_app.
 
 (* case mapping (ASCII model): idempotence and inverse on letters *)
 Theorem C15_tolower_toupper : forall s, tolower (toupper s) = tolower s.
@@ -82,6 +86,7 @@ Print Assumptions C15_gssub_same_is_identity.
 
 Example C15_nonvacuous :
   strlen (bs [104; 195; 169; 255; 226; 130]%N) = 5
+  /\ valid_utf8 (bs [104; 195; 169; 226; 130; 172; 240; 159; 152; 128]%N) = true /\ valid_utf8 (bs [237; 160; 128]%N) = false
   /\ substr1 (bs [104; 195; 169; 108]%N) 2 2 = bs [195; 169]%N
   /\ find_lit (B ".") (B "a.b.c") = Some (B "a", B "b.c")
   /\ ssub (B "a.b.c") (B ".") (B "X") = B "aXb.c" /\ gssub (B "a.b.c") (B ".") (B "X") = B "aXbXc"
